@@ -151,13 +151,33 @@ func (op *localFileOp) reloadFileEntryHelper(name string) (reloaded bool, err er
 	return false, os.ErrNotExist
 }
 
+// _maxLoadAttempts bounds how often lockHelper reloads an entry which was
+// dropped from the in-memory map right after it was found there.
+const _maxLoadAttempts = 10
+
 // lockHelper runs f under protection of entry level RWMutex.
 func (op *localFileOp) lockHelper(
 	name string, l lockLevel, f func(name string, entry FileEntry)) (err error) {
-	if _, err = op.reloadFileEntryHelper(name); err != nil {
-		return err
+	// An entry can be evicted from the in-memory map between the reload and the
+	// load below while its file stays on disk (eviction does not delete
+	// persisted files). Such a file is not missing: reload it again. If the
+	// file is really gone, the reload reports that.
+	for attempt := 0; attempt < _maxLoadAttempts; attempt++ {
+		if _, err = op.reloadFileEntryHelper(name); err != nil {
+			return err
+		}
+		var loaded bool
+		if loaded, err = op.loadHelper(name, l, f); loaded {
+			return err
+		}
 	}
-	var loaded bool
+	return os.ErrNotExist
+}
+
+// loadHelper runs f on the in-memory entry of name, and returns false if there
+// is no such entry.
+func (op *localFileOp) loadHelper(
+	name string, l lockLevel, f func(name string, entry FileEntry)) (loaded bool, err error) {
 	switch l {
 	case _lockLevelPeek:
 		loaded = op.s.fileMap.LoadForPeek(name, func(name string, entry FileEntry) {
@@ -181,10 +201,7 @@ func (op *localFileOp) lockHelper(
 			f(name, entry)
 		})
 	}
-	if !loaded {
-		return os.ErrNotExist
-	}
-	return err
+	return loaded, err
 }
 
 func (op *localFileOp) deleteHelper(
